@@ -43,8 +43,31 @@ PROBES = [
 ]
 
 
-def add_run(c, call, src):
+# calls whose arguments (include paths, caller's defines) differ from call to call: the result of a call is a
+# function of ITS arguments
+INC = '`include "inc.svh"\nw = `W;\n'
+CFG_POOL = [
+    ("preprocess_str", INC, {"incdirs": ["da"]}), ("preprocess_str", INC, {"incdirs": ["db"]}),
+    ("preprocess_str", INC, {"incdirs": ["db", "da"]}), ("parse_sv_str", "module m;\n" + INC + "endmodule\n", {"incdirs": ["da"]}),
+    ("parse_sv_str", "module m;\n" + INC + "wire (\n", {"incdirs": ["db"]}),          # fails after the include
+    ("preprocess_str", INC, {"incdirs": []}),                                          # not found
+    ("preprocess_str", "`ifdef PRE\nyes `PRE\n`else\nno\n`endif\n", {"defines": [("PRE", "1")]}),
+    ("preprocess_str", "`ifdef PRE\nyes `PRE\n`else\nno\n`endif\n", {"defines": [("PRE", "2")]}),
+    ("preprocess_str", "`ifdef PRE\nyes\n`else\nno\n`endif\n", {}),
+    ("preprocess_str", "`define PRE 3\n`define Q 4\n", {}),
+]
+CFG_FILES = {"da/inc.svh": "`define W 8\n", "db/inc.svh": "`define W 16\n"}
+
+
+def add_run(c, call, src, cfg=None):
     inc = call.endswith("_incomplete")
+    cfg = cfg or {}
+    c.add("clearincdirs")
+    c.add("cleardefines")
+    for d in cfg.get("incdirs", []):
+        c.add("incdir", hx(d))
+    for n, v in cfg.get("defines", []):
+        c.add("define", hx(n), "def", 0, hx(v))
     c.add("opt", "incomplete", int(inc))
     c.add("run", call.replace("_incomplete", ""), hx(src), hx("t.sv"))
 
@@ -67,13 +90,18 @@ def check(ctx):
     r = ctx.rng
     q = ctx.quick()
     pool = list(POOL) + [("parse_sv_str" if k == "sv" else "parse_lib_str", s) for k, s in r.sample(snippets.sv_sources(), 10 if q else 100)]
-    probes = list(PROBES)
+    pool = [x + (None,) for x in pool] + CFG_POOL * 2
+    probes = [x + (None,) for x in PROBES] + CFG_POOL
     # fresh-thread references
     ref_cases = []
-    for i, (call, src) in enumerate(probes):
+    def files(c):
+        for p, t in CFG_FILES.items():
+            c.add("file", hx(p), hx(t))
+    for i, (call, src, cfg) in enumerate(probes):
         c = Case("f%d" % i)
+        files(c)
         c.add("want", "tree", "defines", "text")
-        add_run(c, call, src)
+        add_run(c, call, src, cfg)
         ref_cases.append(c)
     hist_cases, meta = [], {}
     nh = 60 if q else 1500
@@ -84,9 +112,10 @@ def check(ctx):
         if r.random() < 0.2:
             h.append(probes[pi])       # the call itself repeated
         c = Case("h%d" % n)
+        files(c)
         c.add("want", "tree", "defines", "text", "state")
-        for call, src in h:
-            add_run(c, call, src)
+        for call, src, cfg in h:
+            add_run(c, call, src, cfg)
         add_run(c, *probes[pi])
         hist_cases.append(c)
         meta[c.id] = (h, pi)
